@@ -130,11 +130,17 @@ def gen_invocation(rnd, d: Path, i: int):
 
 
 def classify_and_run(rep, drv, rnd, d: Path, nodes, flag, want_blocker, stats, mism):
-    want_blocker, inplace = want_blocker
+    force = want_blocker[2] if len(want_blocker) > 2 else {}
+    want_blocker, inplace = want_blocker[0], want_blocker[1]
     # ---- reference analysis: accepted? required keys? ------------------------------------------------
     unknown_proc = any(n["processor"] == "NoSuchProcessorAnywhere" for n in nodes)
     accepted, required = False, []
-    if not unknown_proc:
+    framework_node = any(n["processor"] == "ModelFittingContextProcessor" for n in nodes)
+    if framework_node:
+        # a processor of the framework itself (outside the harness' term library): the reference is the real inspection of a copy
+        accepted, insp0, _ = c02.real_inspect(nodes)
+        required = sorted(insp0.required_context_keys)
+    elif not unknown_proc:
         try:
             ans = drv.run([{"m": "c02.analyse", "id": 0, "nodes": [pipegen.model_node(n) for n in nodes], "dtype": c02.first_input_type(nodes)}])[0]
         except Exception as exc:
@@ -201,7 +207,7 @@ def classify_and_run(rep, drv, rnd, d: Path, nodes, flag, want_blocker, stats, m
         cap = rnd.choice([0, 0, 1, 10, 35])          # boundary caps: zero (nothing may run at all) … one below the 36 planned runs
         stats.setdefault("caps", {}).setdefault(str(cap), 0)
         stats["caps"][str(cap)] += 1
-        r = rnd.random()
+        r = {"yaml": 0.0, "cli": 0.5, "set": 0.9}.get(force.get("cap_via"), rnd.random())
         if r < 0.4:
             rs["max_runs"] = cap
         elif r < 0.75:
@@ -214,7 +220,7 @@ def classify_and_run(rep, drv, rnd, d: Path, nodes, flag, want_blocker, stats, m
     flag_args = FLAG_ARGS[flag]
     if flag == "rsDryRun" and rs is not None:
         # the same request spelled in the file, or as an override of the file
-        r = rnd.random()
+        r = 0.9 if force.get("flag_via") == "cli" else rnd.random()
         if r < 0.25:
             rs["dry_run"] = True
             flag_args = []
@@ -225,7 +231,7 @@ def classify_and_run(rep, drv, rnd, d: Path, nodes, flag, want_blocker, stats, m
             via_set = True
     args += flag_args
     stats["spelled_via_set_or_file"] = stats.get("spelled_via_set_or_file", 0) + (1 if via_set else 0)
-    rs_in_file = rs is not None and not via_set and rnd.random() < 0.35
+    rs_in_file = rs is not None and not via_set and (force.get("rs_in_file", False) or rnd.random() < 0.35)
     if rs_in_file:
         # the same run space given through --run-space-file (as a bare block or under a run_space: key)
         (d / "rs_file.yaml").write_text(yaml.safe_dump(rs if rnd.random() < 0.5 else {"run_space": rs}, sort_keys=False))
@@ -339,6 +345,18 @@ def run(tier: str) -> int:
             ([{"processor": "TSourceDef"}, {"processor": "TOp0"}, dict(snk)], "dryRun", ("none_", None)),
             ([{"processor": "TSourceDef"}, {"processor": "TOp0"}, dict(snk)], "rsDryRun", ("none_", None)),
             ([{"processor": "TSourceDef"}, {"processor": "TOp0"}, dict(snk)], "none_", ("none_", None)),
+            # the run space in its own file, combined with the run-space options of the command line
+            ([{"processor": "TSource"}, dict(snk)], "none_", ("capExceeded", None, {"rs_in_file": True, "cap_via": "cli"})),
+            ([{"processor": "TSource"}, dict(snk)], "rsDryRun", ("none_", None, {"rs_in_file": True, "flag_via": "cli"})),
+            ([{"processor": "TSource"}, dict(snk)], "rsDryRun", ("capExceeded", None, {"rs_in_file": True, "cap_via": "cli", "flag_via": "cli"})),
+            # a node whose factory consumes some of its parameters: the configuration that runs is the one that was checked
+            ([{"processor": "TSourceDef"}, {"processor": "ModelFittingContextProcessor", "parameters": {
+                "independent_var_key": "xs", "dependent_var_key": "ys", "context_key": "fit_out", "fitting_model": "model:TFitModel:degree=1"}},
+              {"processor": "rename:fit_out:final_fit"}, dict(snk)], "none_", ("none_", None)),
+            ([{"processor": "TSourceDef"}, {"processor": "ModelFittingContextProcessor", "parameters": {
+                "context_key": "fit_out", "fitting_model": "model:TFitModel"}}, {"processor": "rename:fit_out:final_fit"}, dict(snk)], "none_", ("none_", None)),
+            ([{"processor": "TSourceDef"}, {"processor": "ModelFittingContextProcessor", "parameters": {
+                "independent_var_key": "xs", "dependent_var_key": "ys", "fitting_model": "model:TFitModel"}}, dict(snk)], "none_", ("missingKey", None)),
         ]
     if drv is not None:
         with rt.tempdir() as d0:
